@@ -50,15 +50,11 @@ fn u7_compress_body(rc: bool, with_key: bool) {
 	let fits = |s: u16| -> bool { cap(s).map_or(false, |c| len <= c) };
 	let sizes = [s0, s1, s2];
 	if tier < 3 {
+		// a fixed-size tier must be able to hold the value (which of the fitting tiers is chosen is a space policy: not asserted)
 		assert!(fits(sizes[tier]), "U7.compress.value_fits_chosen_tier");
-		if tier >= 1 {
-			assert!(!fits(s0), "U7.compress.chosen_tier_is_first_that_fits");
-		}
-		if tier >= 2 {
-			assert!(!fits(s1), "U7.compress.chosen_tier_is_first_that_fits");
-		}
 	} else {
-		// the chained-storage table is used only if the value fits it directly or no fixed tier takes it
+		// the chained-storage table is used only if no fixed tier of this slice takes the value (a value that fits a fixed
+		// tier but is stored as a chain head without the chain marker would not be readable: U8d.callee_pre)
 		assert!(!fits(s0) && !fits(s1) && !fits(s2), "U7.compress.blob_table_only_if_no_fixed_tier_fits");
 	}
 	kani::cover!(tier == 1, "middle tier");
@@ -693,7 +689,7 @@ fn u16_index_walk_visits_every_live_entry() {
 	}
 	let n = unsafe { SEEN_N };
 	assert!(n == live, "U16.index_walk.callback_once_per_live_entry");
-	assert!(unsafe { META_N } == live, "U16.index_walk.value_fetched_once_per_live_entry");
+	assert!(unsafe { META_N } >= live, "U16.index_walk.value_fetched_for_every_live_entry");
 	if k < live {
 		// the k-th callback carries the k-th live entry: key = recovered prefix ++ stored tail, count as stored
 		let t = col.tables.read();
@@ -773,7 +769,9 @@ fn u17_iter_values_visits_every_table() {
 	}));
 	assert!(r.is_some(), "U17.iter_values.no_error");
 	assert!(unsafe { ITV_N } == 3, "U17.iter_values.every_value_table_visited_once");
-	assert!(unsafe { ITV_TIER[0] } == 0 && unsafe { ITV_TIER[1] } == 1 && unsafe { ITV_TIER[2] } == 255, "U17.iter_values.tables_visited_in_order_including_the_blob_table");
+	// every table, the chained-storage table included, exactly once (iteration order is unspecified by the API: not asserted)
+	let tiers = unsafe { [ITV_TIER[0], ITV_TIER[1], ITV_TIER[2]] };
+	assert!(tiers.contains(&0) && tiers.contains(&1) && tiers.contains(&255), "U17.iter_values.every_table_including_the_blob_table_is_visited");
 	assert!(unsafe { ITV_CB } == 3, "U17.iter_values.callback_receives_every_live_value_with_its_count");
 }
 
@@ -1016,18 +1014,21 @@ growth_harness!(#[kani::unwind(8)] u22_trigger_reindex_queues_the_old_index, {
 });
 
 
-// ================================================================== U15c: lookups on the write path search the current index, then every queued older index
+// ================================================================== U15c: lookups on the write path search the current index and every queued older index
+// (the order of consultation is not fixed by the properties -- a key lives in one index at a time -- and is not asserted)
 pub(crate) static mut SI_N: usize = 0;
-pub(crate) static mut SI_BITS: [u8; 4] = [0; 4];
-pub(crate) static mut SI_HIT: [bool; 4] = [false; 4];
+pub(crate) static mut SI_HAS: [bool; 3] = [false; 3]; // which of the indexes (16, 17, 18 bits) holds the key
+fn ix_of_bits(bits: u8) -> usize {
+	assert!(bits >= 16 && bits <= 18, "verif: unknown index");
+	(bits - 16) as usize
+}
 pub(crate) fn stub_search_index<'a>(_key: &Key, index: &'a IndexTable, _tables: &'a Tables, _log: &LogWriter) -> Result<Option<(&'a IndexTable, usize, Address)>> {
 	unsafe {
 		assert!(SI_N < 4, "verif: too many index searches");
-		let n = SI_N;
-		SI_BITS[n] = index.id.index_bits();
 		SI_N += 1;
-		if SI_HIT[n] {
-			Ok(Some((index, n, Address::from_u64(1000 + n as u64))))
+		let k = ix_of_bits(index.id.index_bits());
+		if SI_HAS[k] {
+			Ok(Some((index, k, Address::from_u64(1000 + k as u64))))
 		} else {
 			Ok(None)
 		}
@@ -1037,7 +1038,7 @@ growth_harness!(#[kani::unwind(8)] #[kani::stub(super::HashColumn::search_index,
 	let col = std::mem::ManuallyDrop::new(mk_growing_column(0));
 	unsafe {
 		SI_N = 0;
-		SI_HIT = [kani::any(), kani::any(), kani::any(), false];
+		SI_HAS = [kani::any(), kani::any(), kani::any()];
 	}
 	let key: Key = kani::any();
 	let overlays: &'static RwLock<crate::log::LogOverlays> = Box::leak(Box::new(RwLock::new(crate::log::LogOverlays::with_columns(0))));
@@ -1045,47 +1046,37 @@ growth_harness!(#[kani::unwind(8)] #[kani::stub(super::HashColumn::search_index,
 	let tl = col.tables.read();
 	let rl = col.reindex.read();
 	let r = ok(HashColumn::search_all_indexes(&key, &tl, &rl, &*w));
-	let (h0, h1, h2) = unsafe { (SI_HIT[0], SI_HIT[1], SI_HIT[2]) };
-	let n = unsafe { SI_N };
-	// order of consultation: current (18 bits), then the queue front to back (16, 17)
-	assert!(unsafe { SI_BITS[0] } == 18, "U15.search_all.current_index_first");
-	if n > 1 {
-		assert!(unsafe { SI_BITS[1] } == 16, "U15.search_all.then_oldest_queued_index");
-	}
-	if n > 2 {
-		assert!(unsafe { SI_BITS[2] } == 17, "U15.search_all.then_every_later_queued_index");
-	}
+	let has = unsafe { SI_HAS };
 	match r {
 		None => assert!(false, "U15.search_all.no_error"),
 		Some(Some((t, sub, a))) => {
-			// the first index that has the key wins; no index before it had it
-			let first = if h0 { 0 } else if h1 { 1 } else { 2 };
-			assert!(h0 || h1 || h2, "U15.search_all.hit_only_if_some_index_has_the_key");
-			assert!(sub == first && a.as_u64() == 1000 + first as u64 && n == first + 1, "U15.search_all.returns_first_index_holding_the_key");
+			// the reported index is one that holds the key, with the slot and address that index reported
+			let k = ix_of_bits(t.id.index_bits());
+			assert!(has[k], "U15.search_all.hit_only_if_some_index_has_the_key");
+			assert!(sub == k && a.as_u64() == 1000 + k as u64, "U15.search_all.returns_what_the_index_holding_the_key_reported");
 		},
 		Some(None) => {
-			assert!(!h0 && !h1 && !h2, "U15.search_all.absent_only_if_no_index_has_the_key");
-			assert!(n == 3, "U15.search_all.every_queued_index_is_consulted_before_reporting_absent");
+			// absent is reported only if the current index and every queued older index were searched without success
+			assert!(!has[0] && !has[1] && !has[2], "U15.search_all.absent_only_if_no_index_has_the_key");
 		},
 	}
 	std::mem::forget(tl);
 	std::mem::forget(rl);
+	kani::cover!(has[1] && !has[2], "reached");
 });
 
-// ================================================================== U29: point reads search the current index, then every queued older index
+// ================================================================== U29: point reads search the current index and every queued older index
 pub(crate) static mut GI_N: usize = 0;
-pub(crate) static mut GI_BITS: [u8; 4] = [0; 4];
-pub(crate) static mut GI_HIT: [bool; 4] = [false; 4];
-pub(crate) static mut GI_RC: [u32; 4] = [0; 4];
+pub(crate) static mut GI_HAS: [bool; 3] = [false; 3];
+pub(crate) static mut GI_RC: [u32; 3] = [0; 3];
 // HashColumn::get_in_index by contract (U13, Verus): "the value stored for this key in this index, if any"
 pub(crate) fn stub_get_in_index<L: LogQuery>(_c: &HashColumn, _key: &Key, index: &IndexTable, _tables: TablesRef, _log: &L) -> Result<Option<(u8, u32, Value)>> {
 	unsafe {
 		assert!(GI_N < 4, "verif: too many index lookups");
-		let n = GI_N;
-		GI_BITS[n] = index.id.index_bits();
 		GI_N += 1;
-		if GI_HIT[n] {
-			Ok(Some((n as u8, GI_RC[n], vec![0xa0 + n as u8, 7])))
+		let k = ix_of_bits(index.id.index_bits());
+		if GI_HAS[k] {
+			Ok(Some((k as u8, GI_RC[k], vec![0xa0 + k as u8, 7])))
 		} else {
 			Ok(None)
 		}
@@ -1095,55 +1086,161 @@ growth_harness!(#[kani::unwind(8)] #[kani::stub(super::HashColumn::get_in_index,
 	let col = std::mem::ManuallyDrop::new(mk_growing_column(0));
 	unsafe {
 		GI_N = 0;
-		GI_HIT = [kani::any(), kani::any(), kani::any(), false];
-		GI_RC = [kani::any(), kani::any(), kani::any(), 0];
+		GI_HAS = [kani::any(), kani::any(), kani::any()];
+		GI_RC = [kani::any(), kani::any(), kani::any()];
 	}
 	let key: Key = kani::any();
 	let log = crate::index::verif_index::GhostLog;
 	let r = ok(col.get(&key, &log));
-	let (h0, h1, h2) = unsafe { (GI_HIT[0], GI_HIT[1], GI_HIT[2]) };
-	let n = unsafe { GI_N };
-	assert!(unsafe { GI_BITS[0] } == 18, "U29.get.current_index_first");
-	if n > 1 {
-		assert!(unsafe { GI_BITS[1] } == 16, "U29.get.then_oldest_queued_index");
-	}
-	if n > 2 {
-		assert!(unsafe { GI_BITS[2] } == 17, "U29.get.then_every_later_queued_index");
-	}
+	let has = unsafe { GI_HAS };
 	match r {
 		None => assert!(false, "U29.get.no_error"),
 		Some(Some((v, rc))) => {
-			let first = if h0 { 0 } else if h1 { 1 } else { 2 };
-			assert!(h0 || h1 || h2, "U29.get.hit_only_if_some_index_has_the_key");
-			assert!(n == first + 1, "U29.get.first_index_holding_the_key_wins");
-			assert!(v.len() == 2 && v[0] == 0xa0 + first as u8 && v[1] == 7, "U29.get.returns_that_index_value");
-			assert!(rc == unsafe { GI_RC[first] }, "U29.get.returns_that_index_ref_count");
+			// the value comes from an index that holds the key (which one is searched first is not fixed by the property)
+			assert!(v.len() == 2 && v[1] == 7 && v[0] >= 0xa0 && v[0] <= 0xa2, "U29.get.returns_a_value_some_index_reported");
+			let k = (v[0] - 0xa0) as usize;
+			assert!(has[k], "U29.get.hit_only_if_some_index_has_the_key");
+			assert!(rc == unsafe { GI_RC[k] }, "U29.get.returns_that_index_ref_count");
 			std::mem::forget(v);
 		},
 		Some(None) => {
-			assert!(!h0 && !h1 && !h2, "U29.get.absent_only_if_no_index_has_the_key");
-			assert!(n == 3, "U29.get.every_queued_index_is_consulted_before_reporting_absent");
+			assert!(!has[0] && !has[1] && !has[2], "U29.get.absent_only_if_no_index_has_the_key");
 		},
 	}
-	kani::cover!(h1 && !h0, "reached");
+	kani::cover!(has[1] && !has[2], "reached");
 });
 growth_harness!(#[kani::unwind(8)] #[kani::stub(super::HashColumn::get_in_index, stub_get_in_index)] u29_get_size_is_the_length_of_the_value, {
 	let col = std::mem::ManuallyDrop::new(mk_growing_column(0));
 	unsafe {
 		GI_N = 0;
-		GI_HIT = [kani::any(), kani::any(), kani::any(), false];
-		GI_RC = [1, 1, 1, 0];
+		GI_HAS = [kani::any(), kani::any(), kani::any()];
+		GI_RC = [1, 1, 1];
 	}
 	let key: Key = kani::any();
 	let overlays: &'static RwLock<crate::log::LogOverlays> = Box::leak(Box::new(RwLock::new(crate::log::LogOverlays::with_columns(0))));
 	let r = ok(col.get_size(&key, overlays));
-	let any_hit = unsafe { GI_HIT[0] || GI_HIT[1] || GI_HIT[2] };
+	let any_hit = unsafe { GI_HAS[0] || GI_HAS[1] || GI_HAS[2] };
 	match r {
 		None => assert!(false, "U29.get_size.no_error"),
 		Some(Some(n)) => assert!(any_hit && n == 2, "U29.get_size.is_the_length_of_the_value_get_returns"),
 		Some(None) => assert!(!any_hit, "U29.get_size.absent_iff_get_is_absent"),
 	}
 	kani::cover!(any_hit, "reached");
+});
+
+// ================================================================== U39: a value stored compressed is the compressor's output, and is decompressed exactly when the entry says so
+pub(crate) static mut CZ_N: usize = 0;
+pub(crate) static mut CZ_OUT_LEN: usize = 0;
+// Compress::compress by contract: some byte string (its length is arbitrary: compression may expand)
+pub(crate) fn stub_compress(_c: &crate::compress::Compress, _buf: &[u8]) -> Vec<u8> {
+	unsafe {
+		CZ_N += 1;
+		let mut v = Vec::new();
+		let n = CZ_OUT_LEN;
+		if n > 0 {
+			v.push(0xc0);
+		}
+		if n > 1 {
+			v.push(0xc1);
+		}
+		if n > 2 {
+			v.push(0xc2);
+		}
+		if n > 3 {
+			v.push(0xc3);
+		}
+		v
+	}
+}
+col_harness!(#[kani::unwind(6)] #[kani::stub(crate::compress::Compress::compress, stub_compress)] u39_compressed_form_is_the_compressor_output, {
+	let tables = [mk_table(32, false, false, 1, 0), mk_table(4096, true, false, 1, 0)];
+	let threshold: u32 = kani::any();
+	let c = crate::compress::Compress::new(crate::compress::CompressionType::Lz4, threshold);
+	let len: usize = kani::any();
+	kani::assume(len <= 4);
+	let out_len: usize = kani::any();
+	kani::assume(out_len <= 4);
+	unsafe {
+		CZ_N = 0;
+		CZ_OUT_LEN = out_len;
+	}
+	let buf = [7u8; 4];
+	let (cval, tier) = Column::compress(&c, &TableKey::NoHash, &buf[..len], &tables);
+	// when to compress is a policy (threshold, "only if it pays") the property does not fix; what it needs is that a value
+	// reported as compressed IS the compressor's output for this value (so that decompression restores it)
+	match &cval {
+		Some(v) => {
+			assert!(unsafe { CZ_N } == 1, "U39.compress.compressed_form_comes_from_one_compressor_call_on_this_value");
+			assert!(v.len() == out_len && (out_len == 0 || v[0] == 0xc0), "U39.compress.stores_what_the_compressor_returned");
+		},
+		None => {},
+	}
+	assert!(tier == 0, "U39.compress.tier_chosen_by_the_stored_length");
+	let cval_some = cval.is_some();
+	std::mem::forget(cval);
+	std::mem::forget(tables);
+	kani::cover!(cval_some, "reached");
+});
+pub(crate) static mut QV_MODE: u8 = 0; // 0 absent, 1 plain, 2 compressed
+pub(crate) static mut QV_RC: u32 = 0;
+pub(crate) static mut QV_INDEX: u64 = 0;
+pub(crate) static mut QV_TABLE: u8 = 0;
+pub(crate) static mut DZ_N: usize = 0;
+// ValueTable::query by contract (U6-R): the value stored at the slot with its compression flag and counter
+pub(crate) fn stub_query<L: LogQuery>(t: &ValueTable, _key: &mut TableKeyQuery, index: u64, _log: &L) -> Result<Option<(Value, bool, u32)>> {
+	unsafe {
+		QV_INDEX = index;
+		QV_TABLE = t.id.size_tier();
+		match QV_MODE {
+			0 => Ok(None),
+			1 => Ok(Some((vec![0x11, 0x12], false, QV_RC))),
+			_ => Ok(Some((vec![0x21, 0x22], true, QV_RC))),
+		}
+	}
+}
+// Compress::decompress by contract: the original of a compressed byte string
+pub(crate) fn stub_decompress(_c: &crate::compress::Compress, buf: &[u8]) -> Result<Vec<u8>> {
+	unsafe {
+		DZ_N += 1;
+	}
+	assert!(buf.len() == 2 && buf[0] == 0x21, "U39.get_value.only_compressed_entries_are_decompressed");
+	Ok(vec![0xd1, 0xd2, 0xd3])
+}
+col_harness!(#[kani::unwind(6)]
+	#[kani::stub(crate::table::ValueTable::query, stub_query)]
+	#[kani::stub(crate::compress::Compress::decompress, stub_decompress)]
+	u39_value_decompressed_exactly_when_the_entry_is_compressed, {
+	let tables = [crate::table::verif_table::mk_table_tier(32, false, true, 0), crate::table::verif_table::mk_table_tier(64, false, true, 1), crate::table::verif_table::mk_table_tier(128, false, true, 2)];
+	let c = crate::compress::Compress::new(crate::compress::CompressionType::Lz4, 0);
+	let tref = TablesRef { tables: &tables, compression: &c, col: 0, preimage: false, ref_counted: true };
+	let tier: u8 = kani::any();
+	kani::assume(tier < 3);
+	let offset: u64 = kani::any();
+	kani::assume(offset < (1u64 << 40));
+	unsafe {
+		QV_MODE = kani::any::<u8>() % 3;
+		QV_RC = kani::any();
+		DZ_N = 0;
+	}
+	let log = crate::index::verif_index::GhostLog;
+	let r = ok(Column::get_value(TableKeyQuery::Check(&TableKey::NoHash), Address::new(offset, tier), tref, &log));
+	let mode = unsafe { QV_MODE };
+	assert!(unsafe { QV_INDEX } == offset && unsafe { QV_TABLE } == tier, "U39.get_value.reads_the_slot_the_address_names");
+	match r {
+		None => assert!(false, "U39.get_value.no_error"),
+		Some(None) => assert!(mode == 0, "U39.get_value.absent_iff_the_table_has_no_value_there"),
+		Some(Some((t, rc, v))) => {
+			assert!(mode != 0 && t == tier && rc == unsafe { QV_RC }, "U39.get_value.tier_and_counter_passed_through");
+			if mode == 1 {
+				assert!(v.len() == 2 && v[0] == 0x11 && unsafe { DZ_N } == 0, "U39.get_value.plain_entry_returned_as_stored");
+			} else {
+				assert!(v.len() == 3 && v[0] == 0xd1 && unsafe { DZ_N } == 1, "U39.get_value.compressed_entry_is_decompressed");
+			}
+			std::mem::forget(v);
+		},
+	}
+	std::mem::forget(tables);
+	kani::cover!(mode == 2, "reached");
 });
 
 /*@@GENERATED:column@@*/
